@@ -12,7 +12,11 @@ that "never executed" is observable (and no real foreign bytecode is ever at ris
 A second, smaller BFS (the symlink space) addresses the SAME script directly, through a symlink to the
 file (l.xsh -> s.xsh), through a symlinked directory component (ld/s.xsh) and through the symlink
 re-pointed to another, older real file; edits and touches hit the target, the links keep their own
-(old, logical) lstat mtime.  The main space also contains one run through the file symlink and
+(old, logical) lstat mtime.  The same small space has prepare(version) / install: the next version is
+written elsewhere (mtime = that moment, time goes on) and later moved into place with its mtime
+preserved - a source older than "now" but newer than the COMPILE of the entry, whatever cache hits
+happened in between (whether a run compiled is observed through a counting wrapper on compile_code;
+the model's entry tick is the compile tick, the file's mtime is tracked separately).  The main space also contains one run through the file symlink and
 near-miss version stamps (proper extensions / prefixes of the running version on one line).
 Cache files are located BY EFFECT (one probing cache-on run per unit into an empty directory), never
 by re-deriving xonsh's naming: units (script / (code string, mode)) that land in one file are one
@@ -35,8 +39,9 @@ Part 3 (xv/c19_proc.py): a small completely enumerated set of run ; event ; run 
 process level (`python -m xonsh s.xsh`, `-c`, --no-script-cache, --cache-everything through main.py).
 
 Does not require:
-  * anything about WHICH code runs while mtime(source) <= mtime(cache) and the entry was compiled from
-    an older text ("newer" only) - such runs are only required not to be fatal;
+  * anything about WHICH code runs while mtime(source) <= the moment the entry was COMPILED and the entry
+    was compiled from an older text ("newer" only) - such runs are only required not to be fatal.  (A
+    later re-write of the loaded entry does not move that moment: a source newer than the compile runs.)
   * detection of damage that still unmarshals to a code object (bit flips, NUL bytes in the last bytes):
     such entries are counted as "loaded flipped code: not judged" and their bytecode is never executed;
   * that the cache is used at all (a run that always recompiles is equivalent), nor that a stale or
@@ -94,6 +99,11 @@ def mk_events(thorough, space="main"):
         evs.append(["run", list(core.ALL_OFF), "fresh", "link"])
         evs.append(["run", list(DEFAULT), "shadow", "link"])
         evs.append(["del"])
+        # the next version is prepared ELSEWHERE (its mtime = the tick of that moment, then time goes on)
+        # and later moved into place with that mtime preserved: a source that is older than "now" but
+        # newer than the compile of the entry - whatever ran (and hit the cache) in between
+        evs.append(["prepare", 1])
+        evs.append(["install"])
         return evs
     for sw in ALL_SW:
         evs.append(["run", list(sw), "fresh"])
@@ -154,7 +164,7 @@ class Harness:
             self.paths[eid] = os.path.join(rig.data, rel[u])
             self.units_of[eid] = us
         self.entries = list(self.paths)
-        self.initial = {"body": 0, "src": 10, "now": 10, "ro": False, "ent": {e: None for e in self.entries}}
+        self.initial = {"body": 0, "src": 10, "now": 10, "ro": False, "prep": None, "ent": {e: None for e in self.entries}}
         self.caps_ok = self.rig.caps_ok
 
     # ------------------------------------------------------------------ state (de)materialisation
@@ -202,7 +212,7 @@ class Harness:
     def canon(self):
         self._materialise()
         m = self.m
-        out = [m["body"], m["now"] - m["src"], m["ro"]]
+        out = [m["body"], m["now"] - m["src"], m["ro"], None if m.get("prep") is None else [m["prep"]["body"], m["now"] - m["prep"]["tick"]]]
         known = set()
         for name in self.entries:
             p = self.paths[name]
@@ -214,7 +224,8 @@ class Harness:
             elif e is None:
                 out.append([name, k, "unaccounted"])
             elif any(u in SCRIPT_UNITS for u in self.units_of[name]):
-                out.append([name, k, m["src"] - e["tick"], e["prov"], e["mode"], e["ns"], e.get("file")])
+                ft = self.rig.get_tick(p) if k != "dir" else None
+                out.append([name, k, m["src"] - e["tick"], None if ft is None else m["src"] - ft, e["prov"], e["mode"], e["ns"], e.get("file")])
             else:
                 out.append([name, k, e["prov"], e["mode"], e["ns"]])
         extra = []
@@ -240,6 +251,10 @@ class Harness:
                 if (eid, ev[2]) in offered or e is None or e["prov"] == "foreign:" + ev[2] or core.entry_kind(self.paths[eid]) == "absent":
                     continue
                 offered.add((eid, ev[2]))
+            if op == "prepare" and (m["prep"] is not None or ev[1] == m["body"]):
+                continue
+            if op == "install" and m["prep"] is None:
+                continue
             if op == "ro" and m["ro"]:
                 continue
             if op == "rw" and not m["ro"]:
@@ -283,6 +298,16 @@ class Harness:
             m["src"] = m["now"]
             m["body"] = ev[1]
             rig.write_source(BODIES[ev[1]], m["src"])
+            return []
+        if op == "prepare":
+            m["now"] += 1
+            m["prep"] = {"body": ev[1], "tick": m["now"]}
+            m["now"] += 1
+            return []
+        if op == "install":
+            m["body"], m["src"] = m["prep"]["body"], m["prep"]["tick"]
+            m["prep"] = None
+            rig.write_source(BODIES[m["body"]], m["src"])
             return []
         if op == "touch":
             m["src"] += ev[1]
@@ -343,7 +368,12 @@ class Harness:
                 m["ent"][n] = None
                 continue
             if core.entry_kind(p) != "dir":
-                rig.set_tick(p, m["now"])
+                rig.set_tick(p, m["now"])  # the FILE's mtime is the moment of this write, whatever was written
+            if obs.get("compiled") == 0 and n == name and m["ent"][n] is not None:
+                # nothing was compiled in this run: the implementation re-wrote what it had loaded.  The
+                # model's tick is the tick of the COMPILE ("newer source" is judged against the moment the
+                # bytecode was made from the source), so text / namespace / compile tick stay as they were
+                continue
             m["ent"][n] = {"tick": m["now"], "prov": prov if n == name else f"written-by-{unit}", "ns": ns, "mode": mode, "file": real}
         for dp, _dns, fns in os.walk(rig.data):  # anything else the run wrote also happened "now"
             for n in fns:
@@ -461,7 +491,7 @@ def run(ctx):
     # second, small history space: the script reached through symlinks (own alphabet, deeper)
     global _SPACE
     _SPACE = "links"
-    ldepth = ctx.pick(6, 7)
+    ldepth = ctx.pick(5, 6)
     try:
         rl = seqx.bfs(_factory, ldepth, ctx, budget_s=ctx.pick(30, 200), chunk=ctx.pick(2, 8))
     finally:
